@@ -117,9 +117,15 @@ def run_pairing(ctx: Ctx) -> RuleResult:
     # the counted string is the text after the last newline of the token
     tok_param = hnl.positional_names()[0] if hnl.positional_names() else 'token'
     if text_var is not None:
-        defs = [n for n in hnl.body_nodes() if isinstance(n, ast.Assign) and len(n.targets) == 1
-                and isinstance(n.targets[0], ast.Name) and n.targets[0].id == text_var]
+        all_defs = [n for n in hnl.body_nodes() if isinstance(n, ast.Assign) and len(n.targets) == 1
+                    and isinstance(n.targets[0], ast.Name) and n.targets[0].id == text_var]
+        # the definition that splits the token; a second one may be the '' of the "no newline in the token" arm
+        defs = [d for d in all_defs if any(isinstance(c, ast.Call) and isinstance(c.func, ast.Attribute)
+                                           and c.func.attr in ('rsplit', 'split', 'rpartition', 'partition') for c in ast.walk(d.value))]
+        others = [d for d in all_defs if d not in defs]
         ok = False
+        recv = None
+        splits = []
         if len(defs) == 1:
             splits = [c for c in ast.walk(defs[0].value) if isinstance(c, ast.Call) and isinstance(c.func, ast.Attribute)
                       and c.func.attr in ('rsplit', 'split', 'rpartition', 'partition')]
@@ -138,12 +144,23 @@ def run_pairing(ctx: Ctx) -> RuleResult:
                         and recv in (tok_param, tok_param + '.value'):
                     ok = True
         # ... and a newline token WITHOUT a newline (a comment at end of input) contributes no indentation at all:
-        # the split must be conditional on the separator being present, with '' otherwise
+        # the split is conditional on the separator being present, with '' otherwise
         if ok:
+            cond_ok = False
             v0 = defs[0].value
-            cond_ok = isinstance(v0, ast.IfExp) and _contains_in_test(v0.test, "'\\n'", recv) and isinstance(v0.orelse, ast.Constant) \
-                and v0.orelse.value == '' and any(x is splits[0] for x in ast.walk(v0.body))
-            if not cond_ok:
+            if isinstance(v0, ast.IfExp):
+                cond_ok = _contains_in_test(v0.test, "'\\n'", recv) and isinstance(v0.orelse, ast.Constant) \
+                    and v0.orelse.value == '' and any(x is splits[0] for x in ast.walk(v0.body))
+            guard = parent(defs[0])
+            if isinstance(guard, ast.If) and defs[0] in guard.body and _contains_in_test(guard.test, "'\\n'", recv) \
+                    and len(others) == 1 and others[0] in guard.orelse and isinstance(others[0].value, ast.Constant) \
+                    and others[0].value.value == '':
+                cond_ok = True
+            if isinstance(guard, ast.If) and defs[0] in guard.orelse and len(others) == 1 and others[0] in guard.body \
+                    and isinstance(others[0].value, ast.Constant) and others[0].value.value == '' \
+                    and isinstance(guard.test, ast.Compare) and isinstance(guard.test.ops[0], ast.NotIn) and const_str(guard.test.left) == '\n':
+                cond_ok = True
+            if not cond_ok and not others:
                 # or: an earlier `if '\n' not in token: return`
                 for st in hnl.node.body:
                     if isinstance(st, ast.If) and isinstance(st.test, ast.Compare) and isinstance(st.test.ops[0], ast.NotIn) \
